@@ -201,7 +201,24 @@ def run_one(spec):
                 time.sleep(0.1)
             res['replaced'] = not (set(pids) & {p.pid for p in pool._pool})
             time.sleep(0.3)
-        fn = dict(idle=None, busy=t_sleep, handler=t_in_handler, lock_lost=t_lose_wlock_at_term)[spec['state']]
+        if spec['state'] == 'lazy_imap':
+            # the task handler is in the MIDDLE of a task sequence (inside a lazy iterable that is slow
+            # to produce its next item) and the workers are idle when terminate() is called
+            import threading
+            first_done = threading.Event()
+
+            def slow_items():
+                yield 0
+                first_done.wait(10)
+                time.sleep(1.2)
+                yield 1
+                time.sleep(1.2)
+                yield 2
+            it = pool.imap(t_double, slow_items())
+            res['first_item'] = it.next(timeout=10)
+            first_done.set()
+            time.sleep(0.3)
+        fn = dict(idle=None, busy=t_sleep, handler=t_in_handler, lock_lost=t_lose_wlock_at_term, lazy_imap=None)[spec['state']]
         rs = []
         if fn is not None:
             rs = [pool.apply_async(fn, (30,)) for _ in range(spec.get('jobs', spec.get('n', 2)))]
